@@ -287,6 +287,9 @@ WEIGHT_CONSUMERS = ("h", "h1", "h2", "h3", "calculate_1d_frequencies", "calculat
                     "polar", "radial", "azimuthal", "cylindrical", "cylindrical_surface", "spherical", "spherical_surface")
 
 
+DROP_WITHOUT_MASK_OK = {"PhystSeriesAccessor.cut": "only bin edges are computed from the filtered values; pd.cut bins the series itself"}
+
+
 def discarded_mask(ctx, rule, m, only=None, floor=1):
     """A call that throws the extractor's NaN mask away must not drop anything (dropna=False) when the same function hands
     weights on (explicitly or through **kwargs): whoever drops entries later can then still drop their weights."""
@@ -323,7 +326,8 @@ def discarded_mask(ctx, rule, m, only=None, floor=1):
                 if fn in WEIGHT_CONSUMERS and (any(k.arg is None for k in c2.keywords) or kwarg(c2, "weights") is not None):
                     hands_on.append(U(c2.func))
             key = f"{fi.qualname}:{c.func.id}:mask-discarded"
-            ctx.check(not (drops and hands_on), rule, key,
+            allowed = fi.qualname in DROP_WITHOUT_MASK_OK
+            ctx.check(not (drops and (hands_on or not allowed)), rule, key,
                       "nothing is dropped here (dropna=False)" if not drops else "the function hands no weights on",
                       f"`{U(c)[:80]}` may drop NaN entries but its mask is thrown away while the function passes weights on to "
                       f"{sorted(set(hands_on))}: the weights can no longer be filtered with the values", fi.where)
